@@ -44,7 +44,7 @@ CHECKS = {
      text="Generated client configurations (codec x compression algorithm/level x batching size/interval x 1-3 subscribers) and workloads (item counts around the batch size, payload sizes from 0 to just under the frame limit) are published through selium::Publisher and must be yielded by every warmed-up selium::Subscriber exactly, in order, once; finish() must return Ok and everything accepted before it must arrive.",
      note="Real multi-threaded runtime and UDP: the oracle is timing-independent; 'did not arrive' is only a violation when a later probe on the same path did arrive. Batch sizes above 100000 and batches over the frame limit are outside the generated domain.", ref="§5 C03"),
 
- "C04": dict(cat="exploration", tech="concurrent-call property-based testing of the real Requestor (streams x clones x calls) through the real server against a scripted wire-level replier (permuted, duplicated, late and missing replies); reply = f(request) oracle",
+ "C04": dict(cat="exploration", tech="concurrent-call property-based testing of the real Requestor (streams x clones x calls) through the real server against a scripted wire-level replier (permuted, duplicated, late and missing replies) and, in part of the cases, a raw requestor forging the client streams' origin tag and request ids; reply = f(request) oracle",
      text="Every call that returns Ok must carry f(its own request) whatever the reply order and however ids collide across streams; never/late answered calls must fail with the timeout error no earlier than the timeout and a late reply must not satisfy a later call; answered calls on long-timeout streams must succeed.",
      note="Real runtime and UDP; on 400 ms-timeout streams a prompt reply may lose the race under load, so both outcomes are accepted there. Lateness is event-triggered, not a real-time distribution.", ref="§5 C04"),
  "C12": dict(cat="fault_enumeration", tech="generated outage scripts (cut point x failing attempts x failure mode x repetition) against a scripted fake server, exact reconnect-attempt accounting for the real client library",
@@ -54,11 +54,11 @@ CHECKS = {
  "C11": dict(cat="exploration", tech="frame-script property-based testing against a fresh real server with raw wire peers (service probes per accepted stream, post-hoc health probes per topic, process-wide panic hook) plus stateful PBT of the real req/rep router fed with non-message and near-limit frames",
      text="Generated scripts of stream opens (all eight first-frame kinds, valid/invalid names, topics already used in the other pattern) and mid-stream frames of any kind incl. requests that only fit the wire limit before the routing tag is added; every stream must end up served in its role (verified by an exchange through that very stream) or explicitly refused with an error frame (which the client library reports from open()); no server task may panic and every touched topic must still serve fresh well-behaved peers.",
      note="Authenticated peer, well-formed frames only. 'Ok' precedes adoption by the router, so the harness settles bindings with probe exchanges before relying on their order.", ref="§5 C11"),
- "C17": dict(cat="fault_enumeration", tech="generated stall + registration-queue overflow on one topic of a fresh real server (non-reading subscriber, flooding publishers, b registrations before and n after the stall, n around and above the queue capacity), cross-topic probe with raw peers and the client library",
+ "C17": dict(cat="fault_enumeration", tech="generated stall + registration-queue overflow on one topic of a fresh real server (non-reading subscriber, flooding publishers, b registrations before and n after the stall, n around and above the queue capacity), cross-topic probe with raw peers (fresh connections, the stuck publishers' connection, the connections with queued registrations) and the client library; variant where the stalled client's whole connection is out of flow-control credit",
      text="After topic A is provably stalled (its publishers are back-pressured) and more registrations than the router's queue holds are made on it, a publisher/subscriber pair on topic B (raw and through the client library) must still register and exchange a message; a control exchange on B before the stall must have succeeded in the same case.",
      note="One stall mechanism; the violating behaviour is a dead-lock, so the 12 s deadline is not a race.", ref="§5 C17"),
 
- "C15": dict(cat="exploration", tech="complete enumeration of the identity matrix (client identity x server identity x stream kind) with freshly generated keys per run, against the real server and client library / a raw certificate-less peer",
+ "C15": dict(cat="exploration", tech="complete enumeration of the identity matrix (client identity x server identity x stream kind) with freshly generated keys per run, against the real server and client library / a raw certificate-less peer; CA-B identities are PEM full-chain files, CA-A identities single DER files",
      text="Exactly the pairing where both sides hold certificates from the generated CA registers streams and completes an exchange; a client with a certificate from another CA, a self-signed one or none is never answered Ok and nothing it publishes reaches a trusted subscriber; a client never talks to a server whose certificate comes from another CA (isolated by a server that still verifies clients against the trusted CA).",
      note="Finite configuration space enumerated completely (exhaustive: true); expiry, revocation and key-usage variants are outside the property.", ref="§5 C15"),
 }
